@@ -761,6 +761,9 @@ def _gen_gradient(draw, cx):
                 stop = node("stop", sa, {"stop-color": col})
             if draw(st.integers(0, 4)) == 0:
                 stop["a"]["stop-opacity"] = "0.5"
+            if cx.nid % 4 == 0:
+                stop["a"]["id"] = f"stop_{gid}_{i}"  # editors id every element; a copied gradient must not repeat these
+                cx.feat.add("stop-ids")
             g["c"].append(stop)
     cx.grads.append(gid)
     cx.feat.add(kind)
